@@ -329,7 +329,7 @@ fn parse_election_command(command: &mut std::str::SplitN<&str>) -> Result<Reques
             })
         }
         _ => Ok(Request::ElectionActive {
-            node_name: command.next().unwrap_or("no-server").to_string(),
+            node_name: command.next().unwrap_or("no-server").replace("\n", ""),
         }),
     }
 }
